@@ -239,12 +239,18 @@ def to_str(I, v):
             _used("str(int)")
             i = V.vi(t)
             return SV(V.VStr(z3.If(i >= 0, z3.IntToStr(i), z3.Concat(V.S("-"), z3.IntToStr(-i)))))
-        raise Unsupported("str() of a symbolic value of unknown kind")
+        _used("str(x) of a value of unknown kind: uninterpreted text py_str(x)")
+        return SV(V.VStr(PY_STR(t)))
+    if isinstance(v, (MList, MDict)):
+        return SV(V.VStr(PY_STR(lower(v))))
     if isinstance(v, Obj):
         raise Unsupported("str() of object")
     if isinstance(v, enum.Enum) and isinstance(v, str):
         return str(v)
     return str(v)
+
+
+PY_STR = z3.Function("py_str", V.Val, z3.StringSort())
 
 
 def concat_strs(I, parts):
@@ -748,6 +754,10 @@ def str_method(I, s, name, args, kwargs):
         suf = I.p.fresh("suf", z3.StringSort())
         if name == "lstrip":
             I.p.assume(z3.And(s == z3.Concat(pre, r), z3.InRe(pre, z3.Star(chars)), z3.Not(starts(r))))
+            # consequences of the definition, stated to help the string solvers (valid for every s):
+            rest = z3.SubString(s, 1, z3.Length(s) - 1)
+            I.p.assume(z3.Implies(z3.Not(starts(s)), r == s))
+            I.p.assume(z3.Implies(z3.And(starts(s), z3.Not(starts(rest))), r == rest))
         elif name == "rstrip":
             I.p.assume(z3.And(s == z3.Concat(r, suf), z3.InRe(suf, z3.Star(chars)), z3.Not(ends(r))))
         else:
